@@ -423,6 +423,8 @@ ShapeWireCase(ls) ==
       ra == IF ValidRel(n) THEN <<"abs", WireLenRel(n) + 1, 1>> ELSE ErrR
       ideal == [no |-> a, ns |-> a, np |-> a, ro |-> r, rs |-> r, ua |-> a, ur |-> r, fb |-> r,
                 ria |-> ra, cr |-> ra, uia |-> ra,
+                \* put into canonical form in place (all labels are walked)
+                cn |-> a, rcn |-> r,
                 \* each label on its own through the label constructors (from
                 \* octets and from text): its length, or -1 if refused
                 lb |-> [i \in 1..Len(ls) |-> IF ls[i] <= 63 THEN ls[i] ELSE -1]]
